@@ -78,6 +78,23 @@ CLAIMS["C17"] = claim("lean-model + harness inval",
     "sync.Mutex provides mutual exclusion (trusted); the clock is an input.",
     "Lean 4 proof (induction over call sequences) + model/implementation correspondence", "DESIGN.md §6 C17")
 
+CLAIMS["C01"] = claim("lean-model + harness fo (deterministic call-out scheduler)",
+    "Lean 4 theorem C01_no_overlapping_builds: in every reachable state of a small-step machine of Get (both variants, every "
+    "configuration, unbounded threads/keys, one shared action per step, free backend/builder answers) two threads inside the builder "
+    "have different keys — via an inductive lock-ownership invariant (7 clauses) preserved by all 9 step kinds. Correspondence: real "
+    "Failover/FailoverOf over real backends under a deterministic scheduler that parks every backend/builder call-out; after each "
+    "resume all goroutine positions, call-out arguments and results are compared with the machine; monitor: no two parked builders per key.",
+    "Go scheduler / channels / mutex semantics modelled (one shared action per step); implementation exercised at call-out granularity.",
+    "Lean 4 proof (inductive invariant over all interleavings) + model/implementation correspondence", "DESIGN.md §6 C01")
+CLAIMS["C04"] = claim("lean-model + harness fo (faults, cancelled contexts, key-buffer rewriting)",
+    "Lean 4 theorems: no key lock remains when all threads are done (C04_locks_released_when_quiescent), a waiter is never orphaned "
+    "(closed lock or a live non-waiting owner), every non-waiting thread is enabled for any call-out answer, every step strictly lowers "
+    "the stepping thread's rank and touches no other thread (at most 12 steps per Get), the key is captured by value. Correspondence: "
+    "scheduler runs with builder failures, backend read/write faults at random call-outs, contexts cancelled before/inside the build, key "
+    "buffers rewritten after return; monitors: every Get returns, VerifKeyLocks()==0 at quiescence.",
+    "Liveness is 'enabled + bounded rank' on the machine; real goroutine fairness is the Go runtime's (trusted). Buffer aliasing is enforced by the harness only.",
+    "Lean 4 proof (invariant + ranking function) + model/implementation correspondence", "DESIGN.md §6 C04")
+
 NOT_APPLICABLE = {}
-for _p in ["C01","C02","C03","C04","C05","C06","C08","C16"]:
+for _p in ["C02","C03","C05","C06","C08","C16"]:
     NOT_APPLICABLE[_p] = "check under construction in this round (model slice or theorem not yet committed); will be claimed when its check exists"
